@@ -54,6 +54,34 @@ type c10Cfg struct {
 	// (.1, the usual case), "range-start", "range-end", "inside",
 	// "just-above", "pool-at-network-address", "pool-at-broadcast-address".
 	Gateway string `json:"gateway_position"`
+	// Zone is the local time zone of the process during the history ("" = the
+	// host's): "fixed:<seconds east>" or an IANA name.
+	Zone string `json:"local_time_zone,omitempty"`
+}
+
+// c10Zones are the local zones a quarter of the histories run in: fixed
+// offsets and real zones west and east of Greenwich, half-hour offsets
+// included.
+var c10Zones = []string{"fixed:-18000", "fixed:32400", "fixed:19800", "fixed:-12600", "fixed:-39600",
+	"America/Los_Angeles", "Asia/Kolkata", "America/St_Johns", "Australia/Lord_Howe", "Pacific/Kiritimati",
+	"America/Sao_Paulo", "Europe/Berlin"}
+
+// c10LoadZone resolves a zone of c10Zones; real zones that the host lacks fall
+// back to a fixed offset.
+func c10LoadZone(name string) (loc *time.Location, east bool) {
+	if sec, ok := strings.CutPrefix(name, "fixed:"); ok {
+		n := 0
+		_, _ = fmt.Sscanf(sec, "%d", &n)
+
+		return time.FixedZone(fmt.Sprintf("F%+d", n), n), n > 0
+	}
+	loc, err := time.LoadLocation(name)
+	if err != nil {
+		return time.FixedZone("fallback", -7*3600), false
+	}
+	_, off := time.Date(2000, 1, 1, 0, 0, 0, 0, time.UTC).In(loc).Zone()
+
+	return loc, off > 0
 }
 
 // c10GwPositions are the gateway positions of the edge histories.
@@ -199,7 +227,7 @@ func c10Scratch() string {
 
 func TestVerifC10(t *testing.T) {
 	rep := verifkit.New("C10", "history",
-		"case = one seeded history (pool of 2-6 addresses, gateway below the pool or - in extra histories that first lease until the pool is exhausted - at range start, at range end, inside, just above the pool, or with the pool at the network or broadcast address; 3-8 hardware addresses, 20-120 steps: DISCOVER / REQUEST selecting, init-reboot, renew / DECLINE / RELEASE with right and wrong addresses and server ids, static add/update/remove inside and outside the pool, clock advances around the lease time, restarts; a third of DISCOVER/REQUEST carry a requested lease time (option 51); 5 % of the steps and 40 % of the static operations go through the HTTP handlers the server registered: status, reset_leases, set_config, reset followed by set_config, add/update/remove static lease) run against the real server from Create with the real leases.json; invariants over Leases(), reply packets, the database file and a reload are checked after every step; non-trivial = at least one ACK and at least one of {pool exhaustion refusal, accepted static operation, restart with entries in the database}; distinct by (configuration, step sequence)")
+		"case = one seeded history (pool of 2-6 addresses, gateway below the pool or - in extra histories that first lease until the pool is exhausted - at range start, at range end, inside, just above the pool, or with the pool at the network or broadcast address; 3-8 hardware addresses, 20-120 steps: DISCOVER / REQUEST selecting, init-reboot, renew / DECLINE / RELEASE with right and wrong addresses and server ids, static add/update/remove inside and outside the pool, clock advances around the lease time, restarts; a quarter of the histories run with the local time zone of the process set to fixed offsets or real zones west and east of Greenwich; a third of DISCOVER/REQUEST carry a requested lease time (option 51); 5 % of the steps and 40 % of the static operations go through the HTTP handlers the server registered: status, reset_leases, set_config, reset followed by set_config, add/update/remove static lease) run against the real server from Create with the real leases.json; invariants over Leases(), reply packets, the database file and a reload are checked after every step; non-trivial = at least one ACK and at least one of {pool exhaustion refusal, accepted static operation, restart with entries in the database}; distinct by (configuration, step sequence)")
 	defer func() {
 		if err := rep.Write(); err != nil {
 			t.Fatal(err)
@@ -242,7 +270,31 @@ func TestVerifC10(t *testing.T) {
 				c10GwPositions[(i-n)%len(c10GwPositions)])
 		}
 		h.cwd = cwd
-		synctest.Run(h.run)
+		// Histories run one after the other, so the process's local zone can
+		// be switched around each of them: it is set before the first server
+		// is created and restored after the last one is gone.
+		func() {
+			if h.cfg.Zone == "" {
+				rep.Class("zone:host")
+				synctest.Run(h.run)
+
+				return
+			}
+			loc, east := c10LoadZone(h.cfg.Zone)
+			old := time.Local
+			time.Local = loc
+			defer func() { time.Local = old }()
+			rep.Class("zone:" + h.cfg.Zone)
+			if east {
+				rep.Class("zone_east_of_greenwich")
+			} else {
+				rep.Class("zone_west_of_greenwich")
+			}
+			synctest.Run(h.run)
+			if h.nRestart > 0 {
+				rep.Event("restarts_in_a_local_zone_other_than_utc")
+			}
+		}()
 		_ = os.RemoveAll(h.dir)
 
 		var kinds []string
@@ -299,6 +351,14 @@ func TestVerifC10(t *testing.T) {
 			rep.Inconcl("no history with the accepted gateway position " + pos + " exhausted its pool")
 		}
 	}
+	for _, k := range []string{"zone_east_of_greenwich", "zone_west_of_greenwich"} {
+		if rep.ClassCount(k) == 0 {
+			rep.Inconcl("no history ran in a local time " + k)
+		}
+	}
+	if rep.EventCount("restarts_in_a_local_zone_other_than_utc") == 0 {
+		rep.Inconcl("no history with a restart ran in a local time zone other than UTC")
+	}
 	if rep.ClassCount("restart-unreadable-db:with-stored-leases") == 0 {
 		rep.Inconcl("no restart with an unreadable database happened while leases were stored")
 	}
@@ -322,6 +382,11 @@ func c10NewHist(rep *verifkit.Report, rng *rand.Rand, dir string) *c10Hist {
 	}
 	if rng.Intn(4) == 0 {
 		c.Hosts = append(c.Hosts, c10WeirdHosts[rng.Intn(len(c10WeirdHosts))])
+	}
+	// The zone is derived from the configuration, not drawn, so that the
+	// draws of the history stay what they were.
+	if (c.Net+c.Steps)%4 == 0 {
+		c.Zone = c10Zones[(c.Net*7+c.PoolStart*3+c.Steps+c.Macs)%len(c10Zones)]
 	}
 	h.cfg = c
 	h.rng2 = rand.New(rand.NewSource(int64(c.Net)*1000003 + int64(c.PoolStart)*10007 + int64(c.Steps)*101 + int64(c.LeaseS)*7 + int64(c.Macs)))
